@@ -15,7 +15,7 @@ from harness.lib import tlvdesc as D
 from harness.lib import tlvgen as TG
 from harness.lib.model import is_err
 
-RULE = ('valid Interest/Data/LpPacket/certificate wires built with the real encoders (all parameter combinations, '
+RULE = ('harness-encoded Data / certificate / Interest carrying EVERY optional element of the packet format in the format order (incl. ValidityPeriod then AdditionalDescription in a certificate): every element must be extracted (class format-element-not-extracted); valid Interest/Data/LpPacket/certificate wires built with the real encoders (all parameter combinations, '
         'digest/HMAC/ECDSA signers, LP header subsets) and grammar-generated ones from the reflected descriptors; '
         'every single-edit mutant class: length fields +-1/x2/253-form/65536-form/non-minimal, truncations, duplicated/'
         'swapped/deleted/unknown (critical and not) elements at every nesting level, byte flips, random bytes up to 4 kB; '
@@ -433,10 +433,96 @@ KNOWN_WITNESSES = [(1, bytes([6, 5, 7, 0, 21, 10, 97])), (0, bytes([5, 5, 7, 0, 
                    (2, bytes([100, 3, 80, 10, 97])), (3, bytes([6, 5, 7, 0, 21, 10, 97]))]
 
 
+def format_order_packets(ctx):
+    """Packets encoded BY THE HARNESS in the order the packet format gives (NDN packet format 0.3, certificate format 2.0),
+    with EVERY optional element present, and what a reader of the format extracts from them.  The decoders' declared
+    field order is reflected from the source (so the model follows it); this family is the independent statement of the
+    order: an accepted packet must yield every element that the format says it carries."""
+    from ndn.encoding import parse_interest, parse_data, Name
+    from ndn.app_support.security_v2 import parse_certificate
+    rng = ctx.rng
+    tlv = G.tlv
+    nm = [tlv(8, b'fmt'), tlv(8, G.rand_bytes(rng, 3))]
+    name = tlv(7, b''.join(nm))
+    kl_name = [tlv(8, b'k'), tlv(8, b'KEY'), tlv(8, b'\x01')]
+    keyloc = tlv(0x1c, tlv(7, b''.join(kl_name)))
+    fbi = tlv(50, b'\x09')
+    meta = tlv(0x14, tlv(0x18, b'\x02') + tlv(0x19, b'\x0f\xa0') + tlv(0x1a, fbi))
+    content = tlv(0x15, b'payload')
+    sigval = tlv(0x17, bytes(32))
+    # Data
+    dsi = tlv(0x16, tlv(0x1b, b'\x03') + keyloc)
+    data = tlv(6, name + meta + content + dsi + sigval)
+    # certificate: SignatureType, KeyLocator, ValidityPeriod, AdditionalDescription
+    entries = [(b'org', b'example'), (b'', b''), (b'k' * 5, G.rand_bytes(rng, 7))]
+    desc = tlv(0x0102, b''.join(tlv(0x0200, tlv(0x0201, k) + tlv(0x0202, v)) for k, v in entries))
+    nb, na = b'20240101T000000', b'20441231T235959'
+    vp = tlv(0xFD, tlv(0xFE, nb) + tlv(0xFF, na))
+    csi = tlv(0x16, tlv(0x1b, b'\x03') + keyloc + vp + desc)
+    cert = tlv(6, name + meta + content + csi + sigval)
+    # Interest: every element of the format
+    hint = tlv(0x1e, tlv(7, tlv(8, b'hint')))
+    app = tlv(0x24, b'pp')
+    isi = tlv(0x2c, tlv(0x1b, b'\x00') + keyloc + tlv(0x26, b'\x01\x02\x03\x04') + tlv(0x28, b'\x05') + tlv(0x2a, b'\x07'))
+    isv = tlv(0x2e, bytes(32))
+    import hashlib
+    dig = tlv(2, hashlib.sha256(app + isi + isv).digest())
+    iname = tlv(7, b''.join(nm) + dig)
+    interest = tlv(5, iname + tlv(0x21, b'') + tlv(0x12, b'') + hint + tlv(0x0a, b'\x00\x00\x00\x2a') + tlv(0x0c, b'\x0f\xa0')
+                   + tlv(0x22, b'\x40') + app + isi + isv)
+
+    def chk(site, what, got, want, wire):
+        if got != want:
+            ctx.violation(site, 'format-element-not-extracted',
+                          f'{what}: the packet carries {want!r:.80} in the place the format gives, the decoder returns {got!r:.80}',
+                          {'wire': wire, 'element': what})
+
+    def b(x):
+        return None if x is None else bytes(x)
+    try:
+        n, mi, c, p = parse_data(data)
+        chk('parse_data', 'name', [bytes(x) for x in n], nm, data)
+        chk('parse_data', 'MetaInfo', (mi.content_type, mi.freshness_period, b(mi.final_block_id)), (2, 4000, fbi), data)
+        chk('parse_data', 'Content', b(c), b'payload', data)
+        chk('parse_data', 'SignatureInfo', (p.signature_info.signature_type, [bytes(x) for x in p.signature_info.key_locator.name]), (3, kl_name), data)
+        chk('parse_data', 'SignatureValue', b(p.signature_value_buf), bytes(32), data)
+    except Exception as e:   # noqa
+        ctx.violation('parse_data', 'format-order-packet-refused', f'{type(e).__name__}: {e}'[:150], {'wire': data})
+    try:
+        cv = parse_certificate(cert)
+        si = cv.signature_info
+        chk('parse_certificate', 'name', [bytes(x) for x in cv.name], nm, cert)
+        chk('parse_certificate', 'Content', b(cv.content), b'payload', cert)
+        chk('parse_certificate', 'SignatureType/KeyLocator', (si.signature_type, [bytes(x) for x in si.key_locator.name]), (3, kl_name), cert)
+        chk('parse_certificate', 'ValidityPeriod', None if si.validity_period is None else (b(si.validity_period.not_before), b(si.validity_period.not_after)), (nb, na), cert)
+        ad = si.additional_description
+        chk('parse_certificate', 'AdditionalDescription',
+            None if ad is None else [(b(e.description_key), b(e.description_value)) for e in ad.description_entry], entries, cert)
+    except Exception as e:   # noqa
+        ctx.violation('parse_certificate', 'format-order-packet-refused', f'{type(e).__name__}: {e}'[:150], {'wire': cert})
+    try:
+        n, ip, ap, p = parse_interest(interest)
+        chk('parse_interest', 'name', [bytes(x) for x in n], nm + [dig], interest)
+        chk('parse_interest', 'selectors', (ip.can_be_prefix, ip.must_be_fresh, [[bytes(x) for x in h] for h in ip.forwarding_hint], ip.nonce,
+                                           ip.lifetime, ip.hop_limit), (True, True, [[tlv(8, b'hint')]], 42, 4000, 64), interest)
+        chk('parse_interest', 'ApplicationParameters', b(ap), b'pp', interest)
+        si = p.signature_info
+        chk('parse_interest', 'InterestSignatureInfo', (si.signature_type, [bytes(x) for x in si.key_locator.name], si.signature_nonce,
+                                                        si.signature_time, si.signature_seq_num), (0, kl_name, 0x01020304, 5, 7), interest)
+        chk('parse_interest', 'InterestSignatureValue', b(p.signature_value_buf), bytes(32), interest)
+    except Exception as e:   # noqa
+        ctx.violation('parse_interest', 'format-order-packet-refused', f'{type(e).__name__}: {e}'[:150], {'wire': interest})
+    for k, w in (('data', data), ('cert', cert), ('interest', interest)):
+        ctx.case(('fmt-order', k, w), True, None, 'format-order.' + k)
+    return [(1, data), (3, cert), (0, interest)]
+
+
 def run(ctx):
     rng = ctx.rng
     M = ctx.call
     decs = build_decoders()
+    for _ in range(ctx.n(5, 60)):
+        format_order_packets(ctx)
     for di, w in KNOWN_WITNESSES:
         check_wire(ctx, M, decs[di], w, 'corpus')
     packets = valid_packets(ctx)
